@@ -267,3 +267,154 @@ Qed.
 
 Lemma lexical_headers_shape ts : lexical_headers ts = shape_headers cand_plain follow_brace ts.
 Proof. apply select_headers_shape. Qed.
+
+(* ---------- tokens the shapes cannot tell apart ---------- *)
+(* the candidate functions and follow-up tests observe a token only through: name, keyword, text, operator,
+   and the symbols "(" ")" "{" "=>" — in particular never through "}" *)
+Definition tsim (a b : token) : Prop :=
+  is_name a = is_name b /\ is_keyword a = is_keyword b /\ t_value a = t_value b /\
+  (forall s, is_operator a s = is_operator b s) /\
+  is_symbol a lparen = is_symbol b lparen /\ is_symbol a rparen = is_symbol b rparen /\
+  is_symbol a lbrace = is_symbol b lbrace /\ is_symbol a s_arrow = is_symbol b s_arrow.
+Definition lsim : list token -> list token -> Prop := Forall2 tsim.
+
+Lemma tsim_refl a : tsim a a.
+Proof. unfold tsim. repeat split; reflexivity. Qed.
+Lemma lsim_refl w : lsim w w.
+Proof. induction w; constructor; [apply tsim_refl | assumption]. Qed.
+Lemma lsim_app a a' b b' : lsim a a' -> lsim b b' -> lsim (a ++ b) (a' ++ b').
+Proof. apply Forall2_app. Qed.
+
+Lemma lsim_skipn n : forall w w', lsim w w' -> lsim (skipn n w) (skipn n w').
+Proof.
+  induction n as [|n IH]; intros w w' H; [exact H|]. destruct H as [|a b w w' Hab H]; [constructor|]. cbn [skipn]. apply IH. exact H.
+Qed.
+
+Lemma lsim_nth w w' : lsim w w' -> forall i,
+  match nth_error w i, nth_error w' i with
+  | Some a, Some b => tsim a b
+  | None, None => True
+  | _, _ => False
+  end.
+Proof.
+  induction 1 as [|a b w w' Hab H IH]; intros i; [destruct i; exact I|].
+  destruct i as [|i]; [exact Hab | apply IH].
+Qed.
+
+Lemma lsim_name_at w w' i : lsim w w' -> name_at w i = name_at w' i.
+Proof.
+  intros H. pose proof (lsim_nth w w' H i) as Hn. unfold name_at.
+  destruct (nth_error w i), (nth_error w' i); try contradiction; [apply Hn | reflexivity].
+Qed.
+Lemma lsim_kw_at w w' i s : lsim w w' -> kw_at w i s = kw_at w' i s.
+Proof.
+  intros H. pose proof (lsim_nth w w' H i) as Hn. unfold kw_at.
+  destruct (nth_error w i), (nth_error w' i); try contradiction; [|reflexivity].
+  destruct Hn as (_ & H2 & H3 & _). rewrite H2, H3. reflexivity.
+Qed.
+Lemma lsim_op_at w w' i s : lsim w w' -> op_at w i s = op_at w' i s.
+Proof.
+  intros H. pose proof (lsim_nth w w' H i) as Hn. unfold op_at.
+  destruct (nth_error w i), (nth_error w' i); try contradiction; [apply Hn | reflexivity].
+Qed.
+Lemma lsim_sym_at_lparen w w' i : lsim w w' -> sym_at w i lparen = sym_at w' i lparen.
+Proof.
+  intros H. pose proof (lsim_nth w w' H i) as Hn. unfold sym_at.
+  destruct (nth_error w i), (nth_error w' i); try contradiction; [apply Hn | reflexivity].
+Qed.
+Lemma lsim_sym_at_lbrace w w' i : lsim w w' -> sym_at w i lbrace = sym_at w' i lbrace.
+Proof.
+  intros H. pose proof (lsim_nth w w' H i) as Hn. unfold sym_at.
+  destruct (nth_error w i), (nth_error w' i); try contradiction; [apply Hn | reflexivity].
+Qed.
+Lemma lsim_sym_at_arrow w w' i : lsim w w' -> sym_at w i s_arrow = sym_at w' i s_arrow.
+Proof.
+  intros H. pose proof (lsim_nth w w' H i) as Hn. unfold sym_at.
+  destruct (nth_error w i), (nth_error w' i); try contradiction; [apply Hn | reflexivity].
+Qed.
+
+Lemma lsim_groups_len w w' : lsim w w' -> forall d, groups_len w d = groups_len w' d.
+Proof.
+  induction 1 as [|a b w w' Hab H IH]; intros d; [reflexivity|].
+  destruct Hab as (_ & _ & _ & _ & H5 & H6 & _). cbn [groups_len]. rewrite H5, H6.
+  destruct (0 <? d)%Z; [destruct (is_symbol b lparen); [|destruct (is_symbol b rparen)] | destruct (is_symbol b lparen)];
+    rewrite ?IH; reflexivity.
+Qed.
+
+Lemma lsim_groups_end w w' p : lsim w w' -> groups_end w p = groups_end w' p.
+Proof.
+  intros H. unfold groups_end. rewrite (lsim_sym_at_lparen w w' p H).
+  rewrite (lsim_groups_len _ _ (lsim_skipn p w w' H)). reflexivity.
+Qed.
+
+Definition cinv (c : cand_fn) : Prop := forall w w' i, lsim w w' -> c w i = c w' i.
+Definition finv (f : follow_fn) : Prop := forall w w' j, lsim w w' -> f w j = f w' j.
+
+Lemma cinv_plain : cinv cand_plain.
+Proof. intros w w' i H. unfold cand_plain. rewrite (lsim_name_at w w' i H), (lsim_groups_end w w' (S i) H). reflexivity. Qed.
+
+Lemma cinv_function : cinv cand_function.
+Proof.
+  intros w w' i H. unfold cand_function. rewrite (lsim_kw_at w w' i _ H).
+  destruct (kw_at w' i s_function); rewrite (lsim_name_at w w' _ H), (lsim_groups_end w w' _ H); reflexivity.
+Qed.
+
+Lemma cinv_arrow : cinv cand_arrow.
+Proof.
+  intros w w' i H. unfold cand_arrow. rewrite (lsim_kw_at w w' i _ H).
+  destruct (kw_at w' i s_const); rewrite (lsim_name_at w w' _ H), (lsim_op_at w w' _ _ H), (lsim_kw_at w w' _ _ H);
+    (match goal with |- context [if ?b then _ else None] => destruct b end; [|reflexivity]);
+    (match goal with |- context [kw_at w' ?k s_async] => destruct (kw_at w' k s_async) end);
+    rewrite (lsim_groups_end w w' _ H);
+    (match goal with |- context [groups_end w' ?k] => destruct (groups_end w' k) as [j|] end; [|reflexivity]);
+    rewrite (lsim_sym_at_arrow w w' j H); reflexivity.
+Qed.
+
+Lemma cinv_never : cinv cand_never.
+Proof. intros w w' i _. reflexivity. Qed.
+
+Lemma finv_brace : finv follow_brace.
+Proof. intros w w' j H. apply lsim_sym_at_lbrace. exact H. Qed.
+
+Lemma lsim_until_brace w w' : lsim w w' -> until_brace w = until_brace w'.
+Proof.
+  induction 1 as [|a b w w' Hab H IH]; [reflexivity|].
+  destruct Hab as (_ & _ & H3 & _ & _ & _ & H7 & _). cbn [until_brace]. rewrite H3, H7, IH. reflexivity.
+Qed.
+
+Lemma finv_throws : finv follow_throws.
+Proof.
+  intros w w' j H. unfold follow_throws.
+  rewrite (lsim_sym_at_lbrace w w' j H), (lsim_kw_at w w' j _ H), (lsim_until_brace _ _ (lsim_skipn (S j) w w' H)). reflexivity.
+Qed.
+
+Lemma lsim_ubt w w' : lsim w w' -> forall d, until_brace_type w d = until_brace_type w' d.
+Proof.
+  induction 1 as [|a b w w' Hab H IH]; intros d; [reflexivity|].
+  destruct Hab as (_ & _ & H3 & _ & H5 & H6 & H7 & _). cbn [until_brace_type]. rewrite H3, H5, H6, H7.
+  destruct (0 <? d)%Z; [destruct (is_symbol b lparen); [|destruct (is_symbol b rparen)] | destruct (is_symbol b lparen)];
+    rewrite ?IH; reflexivity.
+Qed.
+
+Lemma finv_rettype : finv follow_rettype.
+Proof.
+  intros w w' j H. unfold follow_rettype.
+  rewrite (lsim_sym_at_lbrace w w' j H), (lsim_op_at w w' j _ H), (lsim_ubt _ _ (lsim_skipn (S j) w w' H)). reflexivity.
+Qed.
+
+Lemma acc_sim c f w w' i : cinv c -> finv f -> lsim w w' -> acc c f w i = acc c f w' i.
+Proof.
+  intros Hc Hf H. unfold acc. rewrite (Hc w w' i H). destruct (c w' i) as [[n j]|]; [|reflexivity].
+  rewrite (Hf w w' j H). reflexivity.
+Qed.
+
+Lemma lsim_length w w' : lsim w w' -> length w = length w'.
+Proof. induction 1; [reflexivity|]. cbn [length]. congruence. Qed.
+
+(* no accepted candidate, transported along lsim *)
+Lemma no_acc_sim c f A A' B : cinv c -> finv f -> lsim A A' -> no_acc c f A' B -> no_acc c f A B.
+Proof.
+  intros Hc Hf H Hn k Hk.
+  assert (El : length A = length A') by (apply lsim_length; exact H).
+  rewrite (acc_sim c f (A ++ B) (A' ++ B) k Hc Hf (lsim_app _ _ _ _ H (lsim_refl B))). apply Hn. lia.
+Qed.
